@@ -28,6 +28,7 @@ type Engine struct {
 	accCache  map[string][]accessorImpl
 	typeInv   map[string]string
 	guards    map[string]string // "pkg.Type.field" -> lock field name
+	sharedCfg map[string]bool   // "pkg.Type": objects shared by concurrent requests (sharedconfig)
 	overlay   map[string][]byte // synthesised spec files (for executable contracts in replays)
 	broken    map[string]string // synthesised clause functions that no longer type-check
 	keySorts  *Sorts // only for typeKey computations that must be unit independent
@@ -57,7 +58,7 @@ func (e *Engine) anchorNameIs(name, label string) bool {
 func newEngine(l *Loaded) *Engine {
 	e := &Engine{L: l, contracts: map[string]*Contract{}, externs: map[string]*ExternContract{}, funcs: map[string]*ssa.Function{},
 		funcIDs: map[*ssa.Function]int{}, modsets: map[*ssa.Function]ModSet{}, modBusy: map[*ssa.Function]bool{}, wrap64: map[*ssa.Function]bool{},
-		keySorts: newSorts(), mapInv: map[string]string{}, accCache: map[string][]accessorImpl{}, typeInv: map[string]string{}, guards: map[string]string{},
+		keySorts: newSorts(), mapInv: map[string]string{}, accCache: map[string][]accessorImpl{}, typeInv: map[string]string{}, guards: map[string]string{}, sharedCfg: map[string]bool{},
 		renamedBare: map[string]string{}, renamedKey: map[string]string{}, renamedNew: map[string]string{}, panics: map[*ssa.Function]bool{}, tables: map[*ssa.Global][]*ssa.Const{}}
 	for _, sp := range l.SSA {
 		if sp == nil {
